@@ -250,6 +250,32 @@ def _check_image(ctx, d, ds, fr, reqs, pending):
             if st != 'ok' or (what != 'get_raw_frame' and not np.array_equal(np.asarray(val).astype(np.int64), ref[n - 1].astype(np.int64))):
                 ctx.fail({'image': d, 'path': name, 'after': 'refused batch [1, n+1]', 'call': what},
                          f'valid request after a refused one: {val if st != "ok" else "wrong frame"}', site=what + '/after-refusal')
+        # ---- results are values: editing a frame that was handed out (windowing, masking in place) must not change what
+        # the next fetch of the same frame returns.  Only on the path that decodes per request; once `pixel_array` is
+        # cached, frames are documented views of that array.
+        for idx in sorted({0, n - 1}):
+            for what, f in (('get_stored_frame', lambda: im.get_stored_frame(idx + 1)),
+                            ('get_stored_frames', lambda: im.get_stored_frames([idx + 1])[0])):
+                st, a = _fetch(f)
+                if st != 'ok':
+                    continue
+                a = np.asarray(a)
+                editable = bool(a.flags.writeable)
+                ctx.case(path=name + '/edit-result', result_editable=editable)
+                if not editable:
+                    continue
+                try:
+                    if a.dtype == bool:
+                        np.logical_not(a, out=a)
+                    else:
+                        np.bitwise_xor(a, 1, out=a)
+                except Exception:  # noqa: BLE001
+                    continue
+                st, b = _fetch(f)
+                if st != 'ok' or not np.array_equal(np.asarray(b).astype(np.int64), ref[idx].astype(np.int64)):
+                    ctx.fail({'image': d, 'path': name, 'call': what, 'frame': idx + 1, 'history': 'fetch, edit the result in place, fetch again'},
+                             'second fetch returns the edited pixels (results share memory)' if st == 'ok' else f'second fetch refused: {b}',
+                             site=what + '/edit-result')
         # ---- the same requests once the whole pixel array is cached on the object (a separate code path)
         st, whole = _fetch(lambda: im.pixel_array)
         if st != 'ok' or not np.array_equal(np.asarray(whole).reshape(ref.shape).astype(np.int64), ref.astype(np.int64)):
